@@ -312,10 +312,19 @@ def run(ctx):
             f.write(cfg_text('MCSpec', '{"e1", "e2"}', '{"h1", "h2"}', 3, 4, '{}', '{"plain", "boolean"}', '{FALSE}',
                              'DefaultCondSet', '{1}'))
         else:
-            f.write(cfg_text('MCSpec', '{"e1", "e2"}', '{"h1", "h2"}', 4, 5, '{}', '{"plain", "boolean"}', '{FALSE}',
+            # MaxPosts 4 / MaxOps 5 does not finish within an hour on 16 cores (measured in round 5: the thorough tier
+            # had never printed a verdict with it); 3 / 5 with two priorities is 1.9M states
+            f.write(cfg_text('MCSpec', '{"e1", "e2"}', '{"h1", "h2"}', 3, 5, '{}', '{"plain", "boolean"}', '{FALSE}',
                              'DefaultCondSet', '{1}').replace('Prio = {1, 2, 3}', 'Prio = {1, 2}'))
     r = tlc.expect_ok(tlc.check(wd, 'EventBusMC', 'MC.cfg', timeout=3000), 'EventBus design check')
-    ctx.add_tlc('EventBusMC', r, {'Ev': 2, 'Hid': 2, 'MaxPosts': 3 if ctx.quick else 4, 'MaxOps': 4 if ctx.quick else 5})
+    ctx.add_tlc('EventBusMC', r, {'Ev': 2, 'Hid': 2, 'MaxPosts': 3, 'MaxOps': 4 if ctx.quick else 5, 'Prio': 3 if ctx.quick else 2})
+    if not ctx.quick:
+        # the quick configuration (three priorities, 4 operations) as well: neither contains the other
+        with open(wd + '/MC3.cfg', 'w') as f:
+            f.write(cfg_text('MCSpec', '{"e1", "e2"}', '{"h1", "h2"}', 3, 4, '{}', '{"plain", "boolean"}', '{FALSE}',
+                             'DefaultCondSet', '{1}'))
+        r = tlc.expect_ok(tlc.check(wd, 'EventBusMC', 'MC3.cfg', timeout=3000), 'EventBus design check (three priorities)')
+        ctx.add_tlc('EventBusMC/3prio', r, {'Ev': 2, 'Hid': 2, 'MaxPosts': 3, 'MaxOps': 4, 'Prio': 3})
     ctx.coverage['monitors'] += ['DepthFirst', 'PriorityOrder', 'Serial', 'CallbackOnce', 'CallbackAfterSubtree', 'Complete']
     with open(wd + '/Gen.cfg', 'w') as f:
         f.write(cfg_text('Spec', '{"e1", "e2", "e3"}', '{"h1", "h2", "h3", "h4"}', 9, 18, '{}',
